@@ -89,27 +89,107 @@ def header_writers(prog):
     return sorted(out)
 
 
-def flag_encoding(chk, prog, config="default"):
+def _param_values(prog, tid):
+    """The finite value set of a flag parameter (bool or the colour enum), as (values, decode)."""
+    t = prog.ty(tid)
+    if t.get("k") == "bool":
+        return [I(0), I(1)], (lambda v: v[1])
+    if t.get("k") == "adt" and t.get("def") == "types::GcColor":
+        return [adt("types::GcColor", COLOURS.index(c), ()) for c in COLOURS], (lambda v: COLOURS[v[2]])
+    return None, None
+
+
+PINNED_SETTERS = {"gc_ptr::GcHeader::set_color": "color", "gc_ptr::GcHeader::set_needs_trace": "needs_trace",
+                  "gc_ptr::GcHeader::set_live": "is_live"}
+
+
+def needs_trace_establishers(prog):
+    """{function: index of the argument that becomes the header's needs-trace flag}, read off the effect of every
+    function that writes the tagged vtable word (and of the header constructor): calling it with false / true makes
+    GcHeader::needs_trace() return false / true."""
     ip = Interp(prog, prims=flag_prims(prog), strict=True)
     ip.lenient_std = False
-    enum_c = lambda n: adt("types::GcColor", COLOURS.index(n), ())
+    nt = "gc_ptr::GcHeader::needs_trace"
+    out = {}
+    if nt not in prog.seed_n:
+        return out
+    ctors = sorted(n for n, ks in prog.seed_n.items()
+                   if ks and prog.ty(prog.bodies[ks[0]]["locals"][0]).get("s") == HDR and "{closure" not in n)
+    for w in list(header_writers(prog)) + [c for c in ctors]:
+        keys = prog.seed_n.get(w) or []
+        b = prog.bodies.get(keys[0]) if keys else None
+        if not b or w in out:
+            continue
+        argc = b.get("argc") or 0
+        bools = [i for i in range(1, argc + 1) if prog.ty(b["locals"][i]).get("k") == "bool"]
+        for i in bools:
+            try:
+                seen = []
+                for v in (0, 1):
+                    args = []
+                    st = State()
+                    for j in range(1, argc + 1):
+                        t = prog.ty(b["locals"][j])
+                        if j == i:
+                            args.append(I(v))
+                        elif t.get("s", "").lstrip("&") == HDR and t.get("k") == "ref":
+                            st, _ = _hdr_state(prog, 0)
+                            args.append(ref(("hdr",), ()))
+                        elif "GcVtable" in t.get("s", ""):
+                            args.append(("addr", "vtable", 0))
+                        elif t.get("k") == "bool":
+                            args.append(I(0))
+                        else:
+                            raise interp.Unmodelled("parameter type " + t.get("s", "?"))
+                    o = _run1(ip, prog, w, args, st)
+                    st2 = o.st
+                    if ("hdr",) not in st2.mem:
+                        st2 = State()
+                        st2.mem[("hdr",)] = o.value
+                    seen.append(_run1(ip, prog, nt, [ref(("hdr",), ())], st2.fork()).value)
+                if seen == [I(0), I(1)]:
+                    out[w] = i - 1
+                    break
+            except (interp.Unmodelled, interp.InterpError, KeyError):
+                continue
+    return out
+
+
+def flag_encoding(chk, prog, config="default"):
+    """Every function that writes the tagged vtable word is interpreted on all 16 states of the low bits and every value
+    of its flag parameter. What a writer sets is read off its effect, not its name: it may change exactly one of the
+    three attributes (colour, needs-trace, live), to a value that is a function of its argument alone - the argument
+    itself for the setters the collector model treats as primitives - and it never disturbs the other two or the
+    vtable address. Each attribute must have an establisher (a setter, or a parameter of GcHeader::new)."""
+    ip = Interp(prog, prims=flag_prims(prog), strict=True)
+    ip.lenient_std = False
     getters = {
         "color": ("gc_ptr::GcHeader::color", lambda v: COLOURS[v[2]] if v[0] == "adt" else None),
         "needs_trace": ("gc_ptr::GcHeader::needs_trace", lambda v: v[1] if v[0] == "i" else None),
         "is_live": ("gc_ptr::GcHeader::is_live", lambda v: v[1] if v[0] == "i" else None),
         "vtable": ("gc_ptr::GcHeader::vtable", lambda v: v),
     }
-    setters = [("color", "gc_ptr::GcHeader::set_color", [enum_c(c) for c in COLOURS], lambda v: COLOURS[v[2]]),
-               ("needs_trace", "gc_ptr::GcHeader::set_needs_trace", [I(0), I(1)], lambda v: v[1]),
-               ("is_live", "gc_ptr::GcHeader::set_live", [I(0), I(1)], lambda v: v[1])]
-    for g in list(getters.values()) + [(s[1], None) for s in setters]:
+    for g in getters.values():
         chk.anchor(g[0], g[0] in prog.seed_n)
     writers = header_writers(prog)
-    analysed = {s[1] for s in setters}
-    extra = [w for w in writers if w not in analysed and w != "gc_ptr::GcHeader::new"]
+    setters = []        # (fn, values, decode)
+    extra = []
+    for w in writers:
+        if w == "gc_ptr::GcHeader::new":
+            continue
+        keys = prog.seed_n.get(w) or []
+        b = prog.bodies.get(keys[0]) if keys else None
+        vals = dec = None
+        if b and b.get("argc") == 2 and prog.ty(b["locals"][1]).get("s", "").lstrip("&") == HDR:
+            vals, dec = _param_values(prog, b["locals"][2])
+        if vals is None:
+            extra.append(w)
+        else:
+            setters.append((w, vals, dec))
     chk.inst("vtable-word-writers-analysed", "gc_ptr::GcHeader.tagged_vtable[%s]" % config, not extra,
-             detail="the tagged vtable word is also written by %s, which the encode/decode analysis does not cover: the "
-                    "vtable of a live object could be rewritten (it would be destructed as another type)" % extra,
+             detail="the tagged vtable word is also written by %s, which the encode/decode analysis does not cover (not a "
+                    "header method taking one flag or colour argument): the vtable of a live object could be rewritten (it "
+                    "would be destructed as another type)" % extra,
              sample={"writers": writers})
     chk.floor("vtable-word-writers[%s]" % config, len(writers), 2)
 
@@ -120,10 +200,11 @@ def flag_encoding(chk, prog, config="default"):
             res[gname] = dec(o.value)
         return res
     n = 0
+    befores = {}
     for low in range(16):
         st0, _ = _hdr_state(prog, low)
         try:
-            before = read_all(st0)
+            before = befores[low] = read_all(st0)
         except (interp.Unmodelled, interp.InterpError, KeyError) as e:
             chk.inst("flag-encoding", "getters(low=%d)[%s]" % (low, config), False, detail="could not be analysed: %s" % e)
             return
@@ -132,54 +213,110 @@ def flag_encoding(chk, prog, config="default"):
                  (before["vtable"][0] == "addr" and before["vtable"][2] == 0),
                  detail="GcHeader::vtable() returns %s for tag bits %d: the untagged pointer is not the vtable address" % (
                      before["vtable"], low), nontrivial=True)
-        for (attr, fn, values, dec) in setters:
+    established = {}
+    for (fn, values, dec) in setters:
+        short = fn.split("::")[-1]
+        results = {}       # (low, value) -> after
+        failed = False
+        for low in range(16):
+            st0, _ = _hdr_state(prog, low)
             for v in values:
                 n += 1
-                st = st0.fork()
                 try:
-                    o = _run1(ip, prog, fn, [ref(("hdr",), ()), v], st)
-                    after = read_all(o.st)
+                    o = _run1(ip, prog, fn, [ref(("hdr",), ()), v], st0.fork())
+                    results[(low, dec(v))] = read_all(o.st)
                 except (interp.Unmodelled, interp.InterpError, KeyError) as e:
-                    chk.inst("flag-encoding", "%s(%s,low=%d)[%s]" % (fn, dec(v), low, config), False,
+                    chk.inst("flag-encoding", "%s(%s,low=%d)[%s]" % (short, dec(v), low, config), False,
                              detail="could not be analysed: %s" % e)
-                    continue
-                probs = []
-                if after[attr] != dec(v):
-                    probs.append("%s() returns %s after %s(%s)" % (attr, after[attr], fn.split("::")[-1], dec(v)))
-                for other in getters:
-                    if other != attr and after[other] != before[other]:
-                        probs.append("%s changed from %s to %s" % (other, before[other], after[other]))
-                chk.inst("flag-encoding", "%s(%s,low=%d)[%s]" % (fn.split("::")[-1], dec(v), low, config), not probs,
-                         detail="; ".join(probs),
-                         sample={"setter": fn, "value": dec(v), "tag_bits_before": low, "after": {k: str(x) for k, x in after.items()}} if n in (1, 40) else None)
+                    failed = True
+        if failed:
+            continue
+        changed = sorted({a for (low, v), after in results.items() for a in getters if after[a] != befores[low][a]})
+        attr = PINNED_SETTERS.get(fn)
+        if attr is None:
+            flags = [a for a in changed if a != "vtable"]
+            attr = flags[0] if len(flags) == 1 else None
+            if attr is None and not changed:
+                attr = "(nothing)"
+        for (low, v), after in sorted(results.items(), key=str):
+            before = befores[low]
+            probs = []
+            if attr is None:
+                probs.append("changes %s: not the setter of one attribute" % changed)
+            elif attr != "(nothing)":
+                if fn in PINNED_SETTERS:
+                    if after[attr] != v:
+                        probs.append("%s() returns %s after %s(%s)" % (attr, after[attr], short, v))
+                else:
+                    same = {results[(l2, v)][attr] for l2 in range(16)}
+                    if len(same) != 1:
+                        probs.append("%s() after %s(%s) depends on the previous flag bits (%s)" % (attr, short, v, sorted(same, key=str)))
+            for other in getters:
+                if other != attr and after[other] != before[other]:
+                    probs.append("%s changed from %s to %s" % (other, before[other], after[other]))
+            chk.inst("flag-encoding", "%s(%s,low=%d)[%s]" % (short, v, low, config), not probs,
+                     detail="; ".join(probs),
+                     sample={"setter": fn, "value": v, "tag_bits_before": low, "sets": attr,
+                             "after": {k: str(x) for k, x in after.items()}} if (low, v) in ((0, values and dec(values[0])), (13, dec(values[-1]))) else None)
+        if attr and attr != "(nothing)":
+            # an establisher of `attr`: every value of the attribute can be produced
+            reach = {results[(0, dec(v))][attr] for v in values}
+            established.setdefault(attr, []).append((fn, sorted(reach, key=str)))
     chk.extra["flag_states"] = 16
     chk.extra["setter_getter_round_trips"] = n
-    # a fresh header (GcHeader::new) decodes as White, not live, needs-trace false, no link: the allocation state the
-    # automaton starts from (live and needs-trace are then set by the builder, checked in C01 / C04)
+    # a fresh header (GcHeader::new) decodes as White, not live, unlinked; its needs-trace flag is false, or the value of a
+    # bool parameter of the constructor (which is then the establisher of that attribute): the allocation state the
+    # automaton starts from (live and needs-trace are then decided by the builder, checked in C01 / C04)
     if chk.anchor("gc_ptr::GcHeader::new", "gc_ptr::GcHeader::new" in prog.seed_n):
         try:
             from gcv.gcmodel import variant_name
-            o = _run1(ip, prog, "gc_ptr::GcHeader::new", [("addr", "vtable", 0)], State())
-            st = State()
-            st.mem[("hdr",)] = o.value
-            res = {}
-            for gname, (fn, dec) in getters.items():
-                v = _run1(ip, prog, fn, [ref(("hdr",), ())], st.fork()).value
-                res[gname] = variant_name(prog, "types::GcColor", v[2]) if gname == "color" and v[0] == "adt" else dec(v)
-            nxt = _run1(ip, prog, "gc_ptr::GcHeader::next", [ref(("hdr",), ())], st.fork()).value
+            key = prog.seed_n["gc_ptr::GcHeader::new"][0]
+            b = prog.bodies[key]
+            argc = b.get("argc") or 1
+            spaces = []
+            for i in range(2, argc + 1):
+                vals, dec = _param_values(prog, b["locals"][i])
+                if vals is None or prog.ty(b["locals"][i]).get("k") != "bool":
+                    raise interp.Unmodelled("parameter %d of GcHeader::new is not a flag" % i)
+                spaces.append(vals)
             probs = []
-            if res["color"] != "White":
-                probs.append("colour %s" % res["color"])
-            if res["is_live"] != 0:
-                probs.append("flagged live before a value exists")
-            if res["needs_trace"] != 0:
-                probs.append("needs-trace set")
-            if not (nxt[0] == "adt" and nxt[2] == 0):
-                probs.append("link %s" % (nxt,))
+            nt_seen = {}
+            for combo in itertools.product(*spaces):
+                o = _run1(ip, prog, "gc_ptr::GcHeader::new", [("addr", "vtable", 0)] + list(combo), State())
+                st = State()
+                st.mem[("hdr",)] = o.value
+                res = {}
+                for gname, (fn, dec) in getters.items():
+                    v = _run1(ip, prog, fn, [ref(("hdr",), ())], st.fork()).value
+                    res[gname] = variant_name(prog, "types::GcColor", v[2]) if gname == "color" and v[0] == "adt" else dec(v)
+                nxt = _run1(ip, prog, "gc_ptr::GcHeader::next", [ref(("hdr",), ())], st.fork()).value
+                tag = "(%s)" % ",".join(str(c[1]) for c in combo) if combo else ""
+                if res["color"] != "White":
+                    probs.append("colour %s%s" % (res["color"], tag))
+                if res["is_live"] != 0:
+                    probs.append("flagged live before a value exists%s" % tag)
+                if not (res["vtable"][0] == "addr" and res["vtable"][2] == 0):
+                    probs.append("vtable() of the fresh header is %s%s" % (res["vtable"], tag))
+                if not (nxt[0] == "adt" and nxt[2] == 0):
+                    probs.append("link %s%s" % (nxt, tag))
+                nt_seen[tuple(c[1] for c in combo)] = res["needs_trace"]
+            which = [i for i in range(len(spaces)) if all(nt == c[i] for c, nt in nt_seen.items())]
+            if spaces and which:
+                established.setdefault("needs_trace", []).append(("gc_ptr::GcHeader::new#%d" % (which[0] + 2), [0, 1]))
+            elif any(nt != 0 for nt in nt_seen.values()):
+                probs.append("needs-trace of a fresh header is %s: neither false nor the value of a constructor parameter" % (
+                    sorted(set(nt_seen.values()), key=str),))
             chk.inst("fresh-header-state", "gc_ptr::GcHeader::new[%s]" % config, not probs,
-                     detail="a fresh header is not (White, not live, needs-trace false, unlinked): %s" % "; ".join(probs))
+                     detail="a fresh header is not (White, not live, needs-trace false or as passed, unlinked): %s" % "; ".join(probs))
         except (interp.Unmodelled, interp.InterpError, KeyError) as e:
             chk.inst("fresh-header-state", "gc_ptr::GcHeader::new[%s]" % config, False, detail="could not be analysed: %s" % e)
+    for attr, full in (("color", COLOURS), ("needs_trace", [0, 1]), ("is_live", [0, 1])):
+        est = established.get(attr, [])
+        ok = any(sorted(r, key=str) == sorted(full, key=str) for _, r in est)
+        chk.inst("flag-established", "%s[%s]" % (attr, config), ok,
+                 detail="no function writing the header word can produce every value of `%s` (setters found: %s): the "
+                        "attribute could never be set" % (attr, est), sample={"establishers": [e[0] for e in est]})
+    chk.extra.setdefault("flag_establishers", {})[config] = {a: [e[0] for e in v] for a, v in established.items()}
     # the list link accessors (primitives of the typestate engine): set_next(x) then next() gives x back and the
     # flags / vtable word are untouched, for an empty and a non-empty link
     for fnname in ("gc_ptr::GcHeader::next", "gc_ptr::GcHeader::set_next"):
